@@ -10,19 +10,24 @@ import itertools
 from lib.core import zlit
 
 MANIFEST = {
-    'text': 'Coq theorems (29, all closed under the global context) over the faithful list model of gfpx.Polynomial, for every '
+    'text': 'Coq theorems (31, all closed under the global context) over the faithful list model of gfpx.Polynomial, for every '
             'prime p and all normal-form coefficient lists of unbounded degree: add/sub/neg/mul, the divmod remainder and the '
             'gcdext outputs are normal forms; coefficient semantics of add/sub/neg; (GF(p)[X],+) is a commutative group (comm, '
             'assoc, zero, inverse, sub = add neg); mul is the convolution reduced mod p (mul_coef + mulz_is_convolution), '
             'commutative, associative, distributive over add, with unit and zero, and _sq = _mul; divmod_spec: divmod(a,b) = '
             '(q,r) implies a = q*b + r and len r < len b, _mod is its second component, division by zero raises; gcdext: Bezout '
-            'identity s*a + t*b = g through the Euclid loop, g monic or zero, loop never exhausts its fuel; the binary class '
+            'identity s*a + t*b = g through the Euclid loop, g monic or zero, loop never exhausts its fuel; powmod with exponent '
+            '>= 1 and nonzero modulus returns a reduced normal form and raises for a zero modulus; the binary class '
             'refines the list class at p = 2 for addition/subtraction (xor). The models (incl. gcd, invert, powmod, shifts, '
             'monic, deriv, int conversion, comparisons, evaluation, for both classes) are tied to /repo on every run: all '
             'operators incl. reflected and int-mixed forms on all pairs of degree <= 3 over p in {2,3}, <= 2 over {5,7} '
             '(thorough: <= 3 over 5), binary class to degree 6, and random pairs up to degree 12 over p in {2,3,11,101,2^31-1}, '
             'compared exactly with vm_compute of the model; an independent schoolbook oracle checks every implementation result.',
-    'note': 'Trusted: Coq kernel + vm_compute; hand-written models Gfpx.v/Gf2x.v (accumulate loops of _mul/_sq modelled as '
+    'note': 'Findings: F-C23-1 (powmod(a, 1, b) unreduced) is repaired in /repo by a226feb (base reduced first) and the models '
+            'follow the repaired code; powmod(a, 0, b) = 1 for every b is the package convention (pinned by its own tests) and '
+            'is the specified behaviour here. F-C23-2 (BinaryPolynomial.__call__ returns 0 at every even x instead of the '
+            'constant coefficient) stays open: tests/test_gfpx.py::test_mod2 asserts poly(7)(0) == 0, so it cannot be '
+            'repaired without editing the existing test suite. Trusted: Coq kernel + vm_compute; hand-written models Gfpx.v/Gf2x.v (accumulate loops of _mul/_sq modelled as '
             'row-by-row structural recursion; the `if a_i:` zero-skip is unobservable) tied by exact comparison; large '
             'exhaustive tables compared through per-row 61-bit rolling hashes (collision ~2^-61) rather than printed '
             'values; in the quick tier the model is evaluated on a deterministic sample of table rows for p in {5,7} and the '
@@ -414,13 +419,17 @@ def oracle_unary(ctx, I, ia, items, ints):
 
 
 def oracle_pw(ctx, I, ia, ib, items):
+    """powmod(a, n, b): n = 0 -> 1 (the package's convention, whatever b); n >= 1 -> n-fold repeated multiplication
+    modulo b, ZeroDivisionError for b = 0; n < 0 -> the inverse of a^(-n) modulo b (ZeroDivisionError if none)."""
     p = I.p
     a, b = r_from_int(p, ia), r_from_int(p, ib)
-    if not b:
-        return      # "for nonzero b"
     u = [I.uni(x) for x in items]
     for n, got in zip(PWN + (p,), u):
-        if p > 50 and n == p:
+        if n == 0:
+            want = [1]
+        elif not b:
+            want = ZERODIV
+        elif p > 50 and n == p:
             # repeated multiplication p times is too long; use square-and-multiply on the reference
             want, base, e = r_divmod(p, [1], b)[1], r_divmod(p, a, b)[1], n
             while e:
@@ -443,14 +452,8 @@ def oracle_pw(ctx, I, ia, ib, items):
                 if want is None:
                     want = 'inverse power'
         if got != want:
-            if n == 1 and len(a) >= len(b):
-                sig = 'powmod-unreduced n=1 deg-a>=deg-b'
-            elif n == 0 and len(b) == 1:
-                sig = 'powmod-unreduced n=0 constant-modulus'
-            else:
-                sig = 'powmod-wrong n=%d' % n
-            ctx.violation('%s %s' % (sig, I.name), {'class': I.name, 'p': p, 'a': ia, 'b': ib, 'n': n, 'a_coef': a,
-                                                   'b_coef': b, 'got': got, 'want': want})
+            ctx.violation('powmod-wrong n=%d %s' % (n, I.name), {'class': I.name, 'p': p, 'a': ia, 'b': ib, 'n': n, 'a_coef': a,
+                                                                  'b_coef': b, 'got': got, 'want': want})
 
 
 def ring_laws(ctx, I, A, B, C, key):
@@ -727,6 +730,6 @@ def run(ctx):
                 ctx.broken.append({'kind': 'correspondence-row-hash', 'case': key, 'model': str(r)[:200], 'impl': h})
         ctx.extra['traces_validated_against_impl'] = len(exprs) + npairs - mism
         ctx.log('model/implementation disagreements: %d' % mism)
-    ctx.notes.append('binary __call__ at even x and powmod with n in {0,1} (unreduced result) are reported as findings when hit')
+    ctx.notes.append('binary __call__ at even x is reported as finding F-C23-2 when hit; powmod(a, 0, b) = 1 is the specified convention')
     if ctx.broken and not ctx.violations:
         ctx.unproved('C23 model/proof', {'broken': ctx.broken[:5]})
